@@ -10,12 +10,15 @@ type drop interface {
 
 // ToLiquid converts an object to Liquid, if it implements the Drop interface.
 func ToLiquid(value any) any {
-	switch value := value.(type) {
-	case drop:
-		return value.ToLiquid()
-	default:
-		return value
+	// a drop may itself yield a drop; the bound guards against one that yields itself
+	for depth := 0; depth < 32; depth++ {
+		d, ok := value.(drop)
+		if !ok {
+			break
+		}
+		value = d.ToLiquid()
 	}
+	return value
 }
 
 type dropWrapper struct {
